@@ -1574,7 +1574,10 @@ func soleIndexOffset(body, name string) (string, bool) {
 			continue // only slice-element addressing is rewritten
 		}
 		if found && o != off {
-			return "", false
+			// several slices indexed by the same variable (new[k] == old[k]): the
+			// first one becomes the plain trigger, the others keep an index that
+			// is arithmetic in the absolute variable
+			continue
 		}
 		off, found = o, true
 	}
